@@ -21,7 +21,14 @@ fn nseg(s: &str) -> Seg {
 /// element values: no integer meets a float of equal value (the statement leaves that case open)
 fn gen_elem(src: &mut Src, depth: usize) -> J {
     match src.weighted(&[30, 25, 8, 8, if depth > 0 { 15 } else { 0 }, if depth > 0 { 14 } else { 0 }]) {
-        0 => J::Int(src.range(0, 4)),
+        0 => {
+            if src.chance(1, 10) {
+                // distinct integers that collapse when converted to f64
+                J::Int(*src.pick(&[(1i64 << 53) + 1, 1i64 << 53, (1i64 << 53) + 2, i64::MAX - 1, i64::MAX, -(1i64 << 53) - 1, -(1i64 << 53)]))
+            } else {
+                J::Int(src.range(0, 4))
+            }
+        }
         1 => J::Str(src.pick(&["a", "b", "c", "", "1"]).to_string()),
         2 => J::Null,
         3 => J::Bool(src.bool()),
@@ -169,6 +176,58 @@ fn random_forms(src: &mut Src, obs: &mut Obs) -> Res {
     check(&q, &doc, obs)
 }
 
+/// the list is changed in place (same address, same length) between two evaluations
+fn random_mutated_list(src: &mut Src, obs: &mut Obs) -> Res {
+    let fname = *src.pick(&FUNCS);
+    let n = *src.pick(&[3usize, 16, 17, 40]);
+    let word = |src: &mut Src| J::Str(format!("w{}", src.below(60)));
+    let list: Vec<J> = (0..n).map(|_| word(src)).collect();
+    let elem = |src: &mut Src, list: &Vec<J>| -> J {
+        if fname == "in" || fname == "nin" {
+            if src.bool() { list[src.below(list.len())].clone() } else { word(src) }
+        } else {
+            let k = src.below(4);
+            J::Arr((0..k).map(|_| if src.bool() { list[src.below(list.len())].clone() } else { word(src) }).collect())
+        }
+    };
+    let elems: Vec<J> = (0..4).map(|_| J::Obj(vec![("k".into(), elem(src, &list))])).collect();
+    let doc = J::Obj(vec![("e".into(), J::Arr(elems)), ("l".into(), J::Arr(list.clone()))]).sorted();
+    let f = Func { name: fname.into(), args: vec![Arg::Q(Query { abs: false, segs: vec![nseg("k")] }), Arg::Q(Query { abs: true, segs: vec![nseg("l")] })] };
+    let q = Query { abs: true, segs: vec![nseg("e"), Seg { desc: false, sels: vec![Sel::Filter(Expr::Test(false, Box::new(TestE::F(f))))], dot: false }] };
+    let text = render_plain(&q);
+    let mut v = doc.to_value();
+    let mut model = doc.clone();
+    obs.label("list-mutated-in-place");
+    for round in 0..3 {
+        obs.eval(1);
+        let map = node_map(&v);
+        let got: Vec<Option<Loc>> = match libx::query_with_path(&v, &map, &text) {
+            Ok(n) => n.iter().map(|x| x.loc.clone()).collect(),
+            Err(e) => return Err(Failure::new(format!("extension call failed: {:?}", e), json!({"query": text, "doc": v}))),
+        };
+        let exp: Vec<Option<Loc>> = oracle::eval(&q, &model, &oracle::Quirks::strict()).iter().map(|n| Some(n.loc())).collect();
+        if got != exp {
+            return Err(Failure::new(
+                "an extension function gives a wrong answer after the list argument was changed in place",
+                json!({"query": text, "doc_now": v, "round": round, "expected_kept": exp.len(), "library_kept": got.len()}),
+            ));
+        }
+        // change one or two elements of the list in place: same allocation, same length
+        for _ in 0..(1 + src.below(2)) {
+            let i = src.below(n);
+            let w = word(src);
+            if let Some(slot) = v.get_mut("l").and_then(|l| l.get_mut(i)) {
+                *slot = w.to_value();
+            }
+            if let Some(J::Arr(l)) = model.get_loc_mut(&[Step::Key("l".into())]) {
+                l[i] = w;
+            }
+        }
+    }
+    obs.nontrivial(&(text.as_str(), doc.text()), || json!({"query": text, "doc": doc.to_value(), "rounds": 3}));
+    Ok(())
+}
+
 fn kept(q: &Query, doc: &J, obs: &mut Obs) -> Result<Vec<Option<Loc>>, Failure> {
     let text = render_plain(q);
     let v = doc.to_value();
@@ -247,10 +306,11 @@ pub fn prop() -> Prop {
                Non-trivial: every case (each evaluates a set function on document-dependent arguments). Distinct by (query text, document).",
         assumptions: vec![
             "arguments are singular queries or literals (the documented use)",
-            "no integer meets a float of equal value (the statement says `equals` without fixing that case): numbers are small integers only",
+            "no integer meets a float of equal value (the statement says `equals` without fixing that case): numbers are integers only (small ones, and distinct integers beyond 2^53 that collapse in f64)",
         ],
         subs: vec![
             Sub { name: "random-sets", kind: Kind::Random { f: random_sets, quick: 150_000, thorough: 3_000_000, len: 400 } },
+            Sub { name: "random-mutated-list", kind: Kind::Random { f: random_mutated_list, quick: 40_000, thorough: 800_000, len: 300 } },
             Sub { name: "random-forms", kind: Kind::Random { f: random_forms, quick: 50_000, thorough: 1_000_000, len: 300 } },
         ],
         direct: Some(direct),
